@@ -15,6 +15,8 @@ package entropy
 // Pairwise distinctness per manager stays exact in both cases.
 
 import (
+	"bytes"
+	"encoding/binary"
 	"fmt"
 	"math"
 
@@ -52,6 +54,7 @@ func (w *world) idStatsStart(seed uint64) {
 		idStats.next = idSpreadFirstN
 	}
 	w.statsOn = !idStats.seeds[seed]
+	ledgerOn = w.statsOn
 	idStats.seeds[seed] = true
 }
 
@@ -117,9 +120,41 @@ func (w *world) explainID(wn win, id uint32, redo func() (uint32, bool)) (from, 
 	r := w.r
 	if off := findID(id, wn.data); off >= 0 {
 		w.oracles["id"] = true
+		w.markEff(wn, off, off+4)
 		return off, off + 4, true
 	}
+	usedAgo := 0
+	// four bytes of a bulk fetch of this call, or issued before the call and not
+	// used by any judged field since (a library that buffers randomness)
+	for _, pat := range [][]byte{binary.BigEndian.AppendUint32(nil, id), binary.LittleEndian.AppendUint32(nil, id)} {
+		for _, b := range wn.bulk {
+			if i := bytes.Index(wn.raw[b[0]:b[1]], pat); i >= 0 && !ledger.usedAny(wn.led0+b[0]+i, wn.led0+b[0]+i+4) {
+				ledger.mark(wn.led0+b[0]+i, wn.led0+b[0]+i+4)
+				pooledSeen = true
+				w.oracles["id"], w.oracles["pooled"] = true, true
+				r.Probe("keyid-from-earlier-issued-bytes")
+				return 0, 0, true
+			}
+		}
+		switch at, st := ledger.find(pat, wn.led0); st {
+		case ledgerFresh:
+			ledger.mark(at, at+4)
+			pooledSeen = true
+			w.oracles["id"], w.oracles["pooled"] = true, true
+			r.Probe("keyid-from-earlier-issued-bytes")
+			return 0, 0, true
+		case ledgerUsed:
+			usedAgo = wn.led0 - at
+		}
+	}
 	fail := func(why string) (int, int, bool) {
+		if usedAgo > 0 {
+			// Four bytes can coincide with some of the last 2^20 issued bytes by chance
+			// (2^-11), so a match with USED bytes alone proves nothing; together with
+			// the failure of every other explanation it names the defect.
+			r.Violation("C20/randomness-reused:keyset.Manager.keyID", fmt.Sprintf("manager returned key ID %08x: its bytes were issued %d bytes before this call and already make up an earlier judged field (the same random bytes were handed out twice), and %s", id, usedAgo, why))
+			return 0, 0, false
+		}
 		r.Violation("C20/keyid-not-from-rng", fmt.Sprintf("manager returned key ID %08x; it is not the value of four bytes issued during the call (%s), and %s", id, core.Hex(wn.data, 16), why))
 		return 0, 0, false
 	}
